@@ -1,15 +1,15 @@
 // iosskel — T-gen for C15: the interaction skeleton of the IOS apply path (go/pkg/ios/device.go)
 // in a NORMAL FORM that does not depend on how the code is spelled:
 //
-//   * only INTERACTION steps are kept: calls of `s.Conn.*` (Send, SendCmd, IssueCmd, GetOutput,
+//   - only INTERACTION steps are kept: calls of `s.Conn.*` (Send, SendCmd, IssueCmd, GetOutput,
 //     WaitShort, TryPrompt, StripStdPrompt, StripEcho, …), calls of impure functions of the package
 //     (those that transitively contain an interaction, an abort, a warning or a watched assignment),
 //     calls of local closures, `errlog.Abort` (ends the path), and assignments to the WATCHED
 //     variables `needReload` and `s.reloadActive`; pure string building (fmt.Sprintf, strings.Cut, `+`),
 //     logging (errlog.Info), sleeping and pure helpers are transparent;
-//   * string arguments are constant-folded (raw/interpreted literals, `"a" + "b"`) and re-quoted; every
+//   - string arguments are constant-folded (raw/interpreted literals, `"a" + "b"`) and re-quoted; every
 //     other argument (locals, parameters, expressions) is `_` (alpha-renaming);
-//   * control flow is compared as the SET of acyclic paths of interaction steps through the function:
+//   - control flow is compared as the SET of acyclic paths of interaction steps through the function:
 //     if/else polarity, guard clauses vs. nesting, early returns, temporaries do not matter; a condition
 //     contributes a token only if it reads a watched variable (`?needReload=T/F`, polarity canonical);
 //     `defer X` contributes `defer:X` at the end of every path of its scope that passed the
@@ -17,9 +17,20 @@
 //     `range` is one composite step `range{<paths of the body>}`, `for {}` paths end in `loop`;
 //     a path that ends in errlog.Abort is marked `!`.
 //
-// Output: lean/NA/Gen/IosSkel.lean with `paths : List (String × List String)` (function ↦ sorted,
-// de-duplicated rendered paths).  The Lean side computes the same normal form from the annotated
-// programs of NA/Model/IosSessionProg.lean (`Prog.paths`) and proves the two sets equal.
+// INLINING (robustness round 2): the fact is computed for the ENTRY POINTS only (`ApplyCommands` of
+// package ios, `LoginEnable` of package cisco — exported API, named by the property's anchors).  Every call
+// of a function or method of the same package (any file of the package directory) or of a local closure that
+// contains an interaction is replaced by the callee's own paths (product), deferred calls included
+// (their steps become `defer:` atoms at the end of the scope).  So a helper that is inlined, extracted,
+// wrapped or moved to another file gives the same fact; no list of helper names exists.  The constant
+// arguments of an inlined call (`sendReloadCmd(false)`, `waitPrompt(pass, ">")`) are kept as the atom
+// `args(false)` / `args(_,">")` in front of the callee's steps — positional, not by name — so no
+// information is dropped.  A loop nested in a `range` body is one atom `range{…}`.
+//
+// Output: lean/NA/Gen/IosSkel.lean with `paths : List (String × List SkelPath)` (entry point ↦ sorted,
+// de-duplicated paths) and `rangeBody<n>` (the bodies of `range` loops, emitted once).  The Lean side
+// computes the same normal form from the annotated programs of NA/Model/IosSessionProg.lean
+// (`Prog.paths`, sub-programs inlined the same way) and proves the two sets equal.
 package main
 
 import (
@@ -35,8 +46,8 @@ import (
 	"strings"
 )
 
-var funcs = []string{"ApplyCommands", "cmd", "cmd.check", "scheduleReload", "extendReload", "sendReloadCmd",
-	"cancelReload", "writeMem", "stripReloadBanner", "prepareDevice", "LoginEnable", "LoginEnable.waitPrompt"}
+// entry points: (package directory, function)
+var entries = [][2]string{{"ios", "ApplyCommands"}, {"cisco", "LoginEnable"}}
 
 var watched = map[string]string{"needReload": "needReload", "s.reloadActive": "reloadActive"}
 
@@ -132,58 +143,99 @@ func argText(e ast.Expr) string {
 	return "_"
 }
 
-// ---------------------------------------------------------------- impurity of package functions
+// ---------------------------------------------------------------- the package
 
-type world struct {
-	decls   map[string]*ast.FuncDecl // functions and methods of the file by name
-	impure  map[string]bool
-	closure map[string]bool // local closures of the function being walked
-	extra   map[string][]string
-	cur     string
+// a function or method of the package (object identity: receiver type + name, any file)
+type fn struct {
+	key  string
+	decl *ast.FuncDecl
 }
 
-func (w *world) isInteractionCall(c *ast.CallExpr) (string, bool, bool) { // token name, interaction?, abort?
+type world struct {
+	fns     map[string]*fn // "State.cmd", "isValidOutput"
+	impure  map[*fn]bool
+	memo    map[*fn][]path
+	active  map[*fn]bool            // inlining in progress (recursion guard)
+	recv    string                  // name of the receiver variable of the function being walked
+	recvT   string                  // its type
+	closure map[string]*ast.FuncLit // local closures in scope
+	consts  map[string]string       // package-level string constants
+	bodies  []string                // rendered bodies of range loops, emitted once
+	tag     string
+}
+
+func recvOf(fd *ast.FuncDecl) (name, typ string) {
+	if fd.Recv == nil || len(fd.Recv.List) == 0 {
+		return "", ""
+	}
+	f := fd.Recv.List[0]
+	if len(f.Names) > 0 {
+		name = f.Names[0].Name
+	}
+	t := f.Type
+	if st, ok := t.(*ast.StarExpr); ok {
+		t = st.X
+	}
+	return name, exprText(t)
+}
+
+// resolve a call to a function of the package or a local closure
+func (w *world) callee(c *ast.CallExpr) (*fn, *ast.FuncLit) {
+	switch f := c.Fun.(type) {
+	case *ast.Ident:
+		if cl, ok := w.closure[f.Name]; ok {
+			return nil, cl
+		}
+		return w.fns[f.Name], nil
+	case *ast.SelectorExpr:
+		if id, ok := f.X.(*ast.Ident); ok && w.recv != "" && id.Name == w.recv {
+			return w.fns[w.recvT+"."+f.Sel.Name], nil
+		}
+	}
+	return nil, nil
+}
+
+// primitive interactions: the connection, abort, warning
+func (w *world) primitive(c *ast.CallExpr) (string, bool, bool) { // token name, primitive?, abort?
 	name := exprText(c.Fun)
 	if i := strings.Index(name, "."); i > 0 && connAlias[name[:i]] {
-		name = "s.Conn." + name[i+1:]
+		name = w.recv + ".Conn." + name[i+1:]
 	}
 	switch {
-	case strings.HasPrefix(name, "s.Conn."):
-		return strings.TrimPrefix(name, "s.Conn."), true, false
+	case w.recv != "" && strings.HasPrefix(name, w.recv+".Conn."):
+		return strings.TrimPrefix(name, w.recv+".Conn."), true, false
 	case name == "errlog.Abort":
 		return "Abort", true, true
 	case name == "errlog.Warning":
 		return "Warning", true, false
-	case strings.HasPrefix(name, "s.") && !strings.Contains(name[2:], "."):
-		if w.impure[name[2:]] {
-			return name[2:], true, false
-		}
-	case !strings.Contains(name, "."):
-		if w.closure[name] || w.impure[name] {
-			return name, true, false
-		}
 	}
 	return "", false, false
 }
 
+// a function is impure if it (transitively) contains a primitive or assigns a watched variable
 func (w *world) computeImpure() {
-	w.impure = map[string]bool{}
+	w.impure = map[*fn]bool{}
 	for changed := true; changed; {
 		changed = false
-		for n, d := range w.decls {
-			if w.impure[n] || d.Body == nil {
+		for _, f := range w.fns {
+			if w.impure[f] || f.decl.Body == nil {
 				continue
 			}
+			w.recv, w.recvT = recvOf(f.decl)
+			collectLocals(f.decl.Body)
 			imp := false
-			ast.Inspect(d.Body, func(x ast.Node) bool {
+			ast.Inspect(f.decl.Body, func(x ast.Node) bool {
 				switch y := x.(type) {
 				case *ast.CallExpr:
-					if _, ok, _ := w.isInteractionCall(y); ok {
+					if _, ok, _ := w.primitive(y); ok {
+						imp = true
+					}
+					if g, _ := w.callee(y); g != nil && w.impure[g] {
 						imp = true
 					}
 				case *ast.AssignStmt:
 					for _, l := range y.Lhs {
-						if _, ok := watched[exprText(l)]; ok {
+						if _, ok := watched[w.canon(exprText(l))]; ok {
 							imp = true
 						}
 					}
@@ -191,17 +243,86 @@ func (w *world) computeImpure() {
 				return !imp
 			})
 			if imp {
-				w.impure[n] = true
+				w.impure[f] = true
 				changed = true
 			}
 		}
 	}
 }
 
-// interaction tokens of an expression in evaluation order (arguments before the call)
-func (w *world) exprToks(e ast.Node) (toks []string, abort bool) {
+// the receiver variable is alpha-renamed to `s`
+func (w *world) canon(name string) string {
+	if w.recv != "" && strings.HasPrefix(name, w.recv+".") {
+		return "s." + strings.TrimPrefix(name, w.recv+".")
+	}
+	return name
+}
+
+// the paths of a package function, computed once
+func (w *world) fnPaths(f *fn) []path {
+	if ps, ok := w.memo[f]; ok {
+		return ps
+	}
+	if w.active[f] {
+		return []path{{toks: []string{"recursion()"}}}
+	}
+	w.active[f] = true
+	sr, st, sc, sl, sa := w.recv, w.recvT, w.closure, localConst, connAlias
+	w.recv, w.recvT = recvOf(f.decl)
+	w.closure = map[string]*ast.FuncLit{}
+	collectLocals(f.decl.Body)
+	for k, v := range w.consts {
+		if _, ok := localConst[k]; !ok {
+			localConst[k] = v
+		}
+	}
+	ps := endScope(w.block(f.decl.Body.List, []path{{}}), 0)
+	w.recv, w.recvT, w.closure, localConst, connAlias = sr, st, sc, sl, sa
+	delete(w.active, f)
+	w.memo[f] = ps
+	return ps
+}
+
+// splice the paths of a callee behind p
+func splice(p path, callee []path, args string) []path {
+	var out []path
+	for _, c := range callee {
+		q := p.ext()
+		if args != "" {
+			q.toks = append(q.toks, args)
+		}
+		q.toks = append(q.toks, c.toks...)
+		if c.status == stAbort {
+			q.status = stAbort
+		}
+		out = append(out, q)
+	}
+	return out
+}
+
+// `args(false)`, `args(_,">")`: the constant arguments of an inlined call, by position
+func constArgs(c *ast.CallExpr) string {
+	var as []string
+	any := false
+	for _, a := range c.Args {
+		t := argText(a)
+		if t != "_" {
+			any = true
+		}
+		as = append(as, t)
+	}
+	if !any {
+		return ""
+	}
+	return "args(" + strings.Join(as, ",") + ")"
+}
+
+// eval: the interactions of an expression in evaluation order (arguments before the call); calls of
+// impure package functions and of local closures are replaced by the callee's paths
+func (w *world) eval(e ast.Node, in []path) []path {
+	ps := in
 	if e == nil {
-		return nil, false
+		return ps
 	}
 	var visit func(n ast.Node)
 	visit = func(n ast.Node) {
@@ -215,20 +336,46 @@ func (w *world) exprToks(e ast.Node) (toks []string, abort bool) {
 				visit(a)
 			}
 			visit(x.Fun)
-			if name, ok, ab := w.isInteractionCall(x); ok {
+			if name, ok, ab := w.primitive(x); ok {
 				var args []string
-				if name == "Abort" || name == "Warning" {
-					// the message text is not part of the skeleton
-				} else {
+				if name != "Abort" && name != "Warning" { // the message text is not part of the skeleton
 					for _, a := range x.Args {
 						args = append(args, argText(a))
 					}
 				}
-				toks = append(toks, name+"("+strings.Join(args, ",")+")")
-				if ab {
-					abort = true
+				tok := name + "(" + strings.Join(args, ",") + ")"
+				for i := range ps {
+					if ps[i].status == stOpen {
+						ps[i] = ps[i].ext(tok)
+						if ab {
+							ps[i].status = stAbort
+						}
+					}
 				}
+				return
 			}
+			f, cl := w.callee(x)
+			var callee []path
+			switch {
+			case cl != nil:
+				sc := w.closure
+				callee = endScope(w.block(cl.Body.List, []path{{}}), 0)
+				w.closure = sc
+			case f != nil && w.impure[f] && f.decl.Body != nil:
+				callee = w.fnPaths(f)
+			default:
+				return
+			}
+			args := constArgs(x)
+			var next []path
+			for _, p := range ps {
+				if p.status != stOpen {
+					next = append(next, p)
+					continue
+				}
+				next = append(next, splice(p, callee, args)...)
+			}
+			ps = next
 			return
 		}
 		ast.Inspect(n, func(c ast.Node) bool {
@@ -240,7 +387,16 @@ func (w *world) exprToks(e ast.Node) (toks []string, abort bool) {
 		})
 	}
 	visit(e)
-	return
+	return ps
+}
+
+func (w *world) hasInteraction(e ast.Node) bool {
+	for _, p := range w.eval(e, []path{{}}) {
+		if len(p.toks) > 0 || p.status != stOpen {
+			return true
+		}
+	}
+	return false
 }
 
 // ---------------------------------------------------------------- paths
@@ -256,24 +412,16 @@ const (
 
 type path struct {
 	toks   []string
-	defers []string
+	defers [][][]string // per deferred call: the alternative step sequences of the callee
 	status int
 }
 
 func (p path) ext(toks ...string) path {
-	n := path{toks: append(append([]string{}, p.toks...), toks...), defers: append([]string{}, p.defers...), status: p.status}
+	n := path{toks: append(append([]string{}, p.toks...), toks...), defers: append([][][]string{}, p.defers...), status: p.status}
 	return n
 }
 
-func render(p path) string {
-	s := strings.Join(p.toks, ";")
-	if p.status == stAbort {
-		s += "!"
-	}
-	return s
-}
-
-func mentionsWatched(e ast.Expr) (string, bool, bool) { // name, found, negated
+func (w *world) mentionsWatched(e ast.Expr) (string, bool, bool) { // name, found, negated
 	neg := false
 	for {
 		switch x := e.(type) {
@@ -289,7 +437,7 @@ func mentionsWatched(e ast.Expr) (string, bool, bool) { // name, found, negated
 		}
 		break
 	}
-	if n, ok := watched[exprText(e)]; ok {
+	if n, ok := watched[w.canon(exprText(e))]; ok {
 		return n, true, neg
 	}
 	return "", false, false
@@ -299,12 +447,28 @@ func mentionsWatched(e ast.Expr) (string, bool, bool) { // name, found, negated
 func endScope(ps []path, base int) []path {
 	var out []path
 	for _, p := range ps {
-		n := p.ext()
+		cur := []path{p.ext()}
 		for i := len(p.defers) - 1; i >= base; i-- {
-			n.toks = append(n.toks, "defer:"+p.defers[i])
+			var next []path
+			for _, c := range cur {
+				for _, alt := range p.defers[i] {
+					n := c.ext()
+					for _, t := range alt {
+						if strings.HasPrefix(t, "?") {
+							n.toks = append(n.toks, t)
+						} else {
+							n.toks = append(n.toks, "defer:"+t)
+						}
+					}
+					next = append(next, n)
+				}
+			}
+			cur = next
 		}
-		n.defers = n.defers[:base]
-		out = append(out, n)
+		for _, n := range cur {
+			n.defers = n.defers[:base]
+			out = append(out, n)
+		}
 	}
 	return out
 }
@@ -325,15 +489,6 @@ func (w *world) block(stmts []ast.Stmt, in []path) []path {
 	return ps
 }
 
-func (w *world) simple(n ast.Node, p path) path {
-	toks, ab := w.exprToks(n)
-	q := p.ext(toks...)
-	if ab {
-		q.status = stAbort
-	}
-	return q
-}
-
 // cond: the paths on which the condition is true / false.  `a || b`, `a && b`, `!a` whose RIGHT
 // operand contains an interaction are evaluated with Go's short circuit (the interaction happens
 // only on the paths that reach it); every other condition is one evaluation.
@@ -343,14 +498,14 @@ func (w *world) cond(c ast.Expr, q path) (ts, es []path) {
 		return w.cond(x.X, q)
 	case *ast.UnaryExpr:
 		if x.Op == token.NOT {
-			if toks, _ := w.exprToks(x.X); len(toks) > 0 {
+			if w.hasInteraction(x.X) {
 				es, ts = w.cond(x.X, q)
 				return
 			}
 		}
 	case *ast.BinaryExpr:
 		if x.Op == token.LOR || x.Op == token.LAND {
-			if toks, _ := w.exprToks(x.Y); len(toks) > 0 {
+			if w.hasInteraction(x.Y) {
 				ta, ea := w.cond(x.X, q)
 				if x.Op == token.LOR {
 					ts = append(ts, ta...)
@@ -378,20 +533,24 @@ func (w *world) cond(c ast.Expr, q path) (ts, es []path) {
 			}
 		}
 	}
-	q = w.simple(c, q)
-	if q.status != stOpen {
-		return []path{q}, nil
-	}
-	t, e := q, q
-	if n, ok, neg := mentionsWatched(c); ok {
-		tv, ev := "T", "F"
-		if neg {
-			tv, ev = "F", "T"
+	for _, q := range w.eval(c, []path{q}) {
+		if q.status != stOpen {
+			ts = append(ts, q)
+			continue
 		}
-		t = q.ext("?" + n + "=" + tv)
-		e = q.ext("?" + n + "=" + ev)
+		t, e := q, q
+		if n, ok, neg := w.mentionsWatched(c); ok {
+			tv, ev := "T", "F"
+			if neg {
+				tv, ev = "F", "T"
+			}
+			t = q.ext("?" + n + "=" + tv)
+			e = q.ext("?" + n + "=" + ev)
+		}
+		ts = append(ts, t)
+		es = append(es, e)
 	}
-	return []path{t}, []path{e}
+	return
 }
 
 func (w *world) stmt(s ast.Stmt, p path) []path {
@@ -410,42 +569,54 @@ func (w *world) stmt(s ast.Stmt, p path) []path {
 				return inner
 			}
 		}
-		return []path{w.simple(s, p)}
+		return w.eval(s, []path{p})
 	case *ast.AssignStmt:
 		if len(s.Rhs) == 1 {
 			if f, ok := s.Rhs[0].(*ast.FuncLit); ok {
-				// local closure: a function of its own
-				name := exprText(s.Lhs[0])
-				w.closure[name] = true
-				sub := endScope(w.block(f.Body.List, []path{{}}), 0)
-				w.extra[w.cur+"."+name] = renderAll(sub)
+				// local closure: inlined where it is called
+				w.closure[exprText(s.Lhs[0])] = f
 				return []path{p}
 			}
 		}
-		q := w.simple(s, p)
-		if q.status == stOpen {
-			for i, l := range s.Lhs {
-				if n, ok := watched[exprText(l)]; ok {
-					q = q.ext(n + assignClass(n, l, s, i))
+		var out []path
+		for _, q := range w.eval(s, []path{p}) {
+			if q.status == stOpen {
+				for i, l := range s.Lhs {
+					if n, ok := watched[w.canon(exprText(l))]; ok {
+						q = q.ext(n + assignClass(n, l, s, i))
+					}
 				}
 			}
+			out = append(out, q)
 		}
-		return []path{q}
+		return out
 	case *ast.DeclStmt, *ast.IncDecStmt, *ast.EmptyStmt:
 		return []path{p}
 	case *ast.DeferStmt:
-		toks, _ := w.exprToks(s.Call)
+		var alts [][]string
+		for _, a := range w.eval(s.Call, []path{{}}) {
+			alts = append(alts, a.toks)
+		}
 		q := p.ext()
-		if len(toks) > 0 {
-			q.defers = append(q.defers, strings.Join(toks, ";"))
+		nonEmpty := false
+		for _, a := range alts {
+			if len(a) > 0 {
+				nonEmpty = true
+			}
+		}
+		if nonEmpty {
+			q.defers = append(q.defers, alts)
 		}
 		return []path{q}
 	case *ast.ReturnStmt:
-		q := w.simple(s, p)
-		if q.status == stOpen {
-			q.status = stRet
+		var out []path
+		for _, q := range w.eval(s, []path{p}) {
+			if q.status == stOpen {
+				q.status = stRet
+			}
+			out = append(out, q)
 		}
-		return []path{q}
+		return out
 	case *ast.BranchStmt:
 		q := p.ext()
 		switch s.Tok {
@@ -510,7 +681,9 @@ func (w *world) stmt(s ast.Stmt, p path) []path {
 		return out
 	case *ast.RangeStmt:
 		sub := w.block(s.Body.List, []path{{}})
-		return []path{p.ext("range{" + strings.Join(leanBody(sub), ", ") + "}")}
+		tok := "range{" + strings.Join(leanBody(sub), ", ") + "}"
+		compactOf[tok] = "loop{" + strings.Join(renderAllOld(sub), "|") + "}"
+		return []path{p.ext(tok)}
 	}
 	return []path{p.ext(fmt.Sprintf("?%T", s))}
 }
@@ -538,6 +711,30 @@ func assignClass(n string, l ast.Expr, s *ast.AssignStmt, i int) string {
 	return ":=_"
 }
 
+// compact rendering of a range token, for loops nested in a range body
+var compactOf = map[string]string{}
+
+func render(p path) string {
+	s := strings.Join(p.toks, ";")
+	if p.status == stAbort {
+		s += "!"
+	}
+	return s
+}
+
+func renderAllOld(ps []path) []string {
+	set := map[string]bool{}
+	for _, p := range ps {
+		set[render(p)] = true
+	}
+	var l []string
+	for s := range set {
+		l = append(l, s)
+	}
+	sort.Strings(l)
+	return l
+}
+
 // Lean syntax of one atom token
 func leanAtom(t string) string {
 	switch {
@@ -549,8 +746,10 @@ func leanAtom(t string) string {
 		return ".cond " + strconv.QuoteToASCII(t[1:len(t)-2]) + " " + b
 	case strings.HasPrefix(t, "defer:"):
 		return ".deferred " + strconv.QuoteToASCII(strings.TrimPrefix(t, "defer:"))
-	case strings.HasPrefix(t, "range{"):
-		return ".step \"?nested-range\""
+	}
+	if c, ok := compactOf[t]; ok {
+		// a loop nested in a range body is ONE atom carrying the canonical rendering of its paths
+		return ".step " + strconv.QuoteToASCII(c)
 	}
 	return ".step " + strconv.QuoteToASCII(t)
 }
@@ -577,12 +776,23 @@ func leanBody(ps []path) []string {
 	return l
 }
 
-// Lean term of one path `([toks], aborted)`
-func leanPath(p path) string {
+// Lean term of one path `([toks], aborted)`; the bodies of range loops are emitted once (`rangeBody<n>`)
+func (w *world) leanPath(p path) string {
 	var ts []string
 	for _, t := range p.toks {
 		if strings.HasPrefix(t, "range{") {
-			ts = append(ts, ".range ["+strings.TrimSuffix(strings.TrimPrefix(t, "range{"), "}")+"]")
+			body := strings.TrimSuffix(strings.TrimPrefix(t, "range{"), "}")
+			k := -1
+			for i, b := range w.bodies {
+				if b == body {
+					k = i
+				}
+			}
+			if k < 0 {
+				k = len(w.bodies)
+				w.bodies = append(w.bodies, body)
+			}
+			ts = append(ts, fmt.Sprintf(".range rangeBody%s%d", w.tag, k))
 		} else {
 			ts = append(ts, ".atom ("+leanAtom(t)+")")
 		}
@@ -594,10 +804,10 @@ func leanPath(p path) string {
 	return "([" + strings.Join(ts, ", ") + "], " + ab + ")"
 }
 
-func renderAll(ps []path) []string {
+func (w *world) renderAll(ps []path) []string {
 	set := map[string]bool{}
 	for _, p := range ps {
-		set[leanPath(p)] = true
+		set[w.leanPath(p)] = true
 	}
 	var l []string
 	for s := range set {
@@ -607,86 +817,81 @@ func renderAll(ps []path) []string {
 	return l
 }
 
-func renderAllOld(ps []path) []string {
-	set := map[string]bool{}
-	for _, p := range ps {
-		set[render(p)] = true
+func loadPackage(dir string) *world {
+	w := &world{fns: map[string]*fn{}, memo: map[*fn][]path{}, active: map[*fn]bool{}, closure: map[string]*ast.FuncLit{},
+		consts: map[string]string{}}
+	pkgs, err := parser.ParseDir(fset, dir, func(fi os.FileInfo) bool { return !strings.HasSuffix(fi.Name(), "_test.go") }, 0)
+	if err != nil {
+		fmt.Fprintln(os.Stderr, err)
+		os.Exit(1)
 	}
-	var l []string
-	for s := range set {
-		l = append(l, s)
+	for _, pk := range pkgs {
+		for _, f := range pk.Files {
+			for _, d := range f.Decls {
+				switch x := d.(type) {
+				case *ast.FuncDecl:
+					key := x.Name.Name
+					if _, t := recvOf(x); t != "" {
+						key = t + "." + key
+					}
+					w.fns[key] = &fn{key: key, decl: x}
+				case *ast.GenDecl:
+					if x.Tok != token.CONST {
+						continue
+					}
+					for _, sp := range x.Specs {
+						vs, ok := sp.(*ast.ValueSpec)
+						if !ok {
+							continue
+						}
+						for i, n := range vs.Names {
+							if i < len(vs.Values) {
+								if v, ok := constStr(vs.Values[i]); ok {
+									w.consts[n.Name] = v
+								}
+							}
+						}
+					}
+				}
+			}
+		}
 	}
-	sort.Strings(l)
-	return l
+	w.computeImpure()
+	return w
 }
 
 func main() {
 	repo := flag.String("repo", "/repo", "repository root")
 	out := flag.String("out", "", "Lean file to write")
 	flag.Parse()
-	found := map[string][]string{}
-	// go/pkg/ios/device.go: the apply path; go/pkg/cisco/device.go: the login / enable dialogue
-	for _, pkg := range []string{"cisco", "ios"} {
-		file := filepath.Join(*repo, "go", "pkg", pkg, "device.go")
-		f, err := parser.ParseFile(fset, file, nil, 0)
-		if err != nil {
-			fmt.Fprintln(os.Stderr, err)
-			os.Exit(1)
-		}
-		w := &world{decls: map[string]*ast.FuncDecl{}, extra: map[string][]string{}}
-		for _, d := range f.Decls {
-			if fd, ok := d.(*ast.FuncDecl); ok {
-				w.decls[fd.Name.Name] = fd
-			}
-		}
-		w.closure = map[string]bool{}
-		// aliases of the connection must be known while impurity is computed
-		for name, fd := range w.decls {
-			if fd.Body != nil && name == "LoginEnable" {
-				collectLocals(fd.Body)
-			}
-		}
-		w.computeImpure()
-		for name, fd := range w.decls {
-			if fd.Body == nil {
-				continue
-			}
-			collectLocals(fd.Body)
-			w.cur = name
-			w.closure = map[string]bool{}
-			ps := endScope(w.block(fd.Body.List, []path{{}}), 0)
-			found[name] = renderAll(ps)
-		}
-		for k, v := range w.extra {
-			found[k] = v
-		}
-	}
 	var b strings.Builder
 	b.WriteString("import NA.Model.IosSkelTypes\n")
-	b.WriteString("/-! GENERATED by translate/iosskel from go/pkg/ios/device.go — do not edit, not committed.\n")
-	b.WriteString("Normal form: sets of acyclic paths of interaction steps (see translate/iosskel/main.go). -/\n")
+	b.WriteString("/-! GENERATED by translate/iosskel from go/pkg/ios, go/pkg/cisco — do not edit, not committed.\n")
+	b.WriteString("Normal form: sets of acyclic paths of interaction steps of the entry points, package helpers inlined\n(see translate/iosskel/main.go). -/\n")
 	b.WriteString("namespace NA.Gen.IosSkel\nopen NA.Ios\n\n")
-	b.WriteString("def paths : List (String × List SkelPath) := [\n")
-	for i, name := range funcs {
-		ps, ok := found[name]
-		if !ok {
+	var ents []string
+	for _, e := range entries {
+		w := loadPackage(filepath.Join(*repo, "go", "pkg", e[0]))
+		w.tag = e[1]
+		var ps []string
+		found := false
+		for _, f := range w.fns {
+			if f.decl.Name.Name == e[1] && f.decl.Body != nil {
+				ps = w.renderAll(w.fnPaths(f))
+				found = true
+			}
+		}
+		if !found {
+			// the entry point is gone: a changed fact, not an abort of the translator
 			ps = []string{"([.atom (.step \"?missing\")], false)"}
 		}
-		b.WriteString("  (" + strconv.QuoteToASCII(name) + ", [\n")
-		for j, t := range ps {
-			b.WriteString("    " + t)
-			if j+1 < len(ps) {
-				b.WriteString(",")
-			}
-			b.WriteString("\n")
+		for i, body := range w.bodies {
+			b.WriteString(fmt.Sprintf("def rangeBody%s%d : List (List Atom × Bool) := [\n  %s\n]\n\n", w.tag, i,
+				strings.ReplaceAll(body, "), (", "),\n  (")))
 		}
-		b.WriteString("  ])")
-		if i+1 < len(funcs) {
-			b.WriteString(",")
-		}
-		b.WriteString("\n")
+		ents = append(ents, "  ("+strconv.QuoteToASCII(e[1])+", [\n    "+strings.Join(ps, ",\n    ")+"\n  ])")
 	}
-	b.WriteString("]\n\nend NA.Gen.IosSkel\n")
+	b.WriteString("def paths : List (String × List SkelPath) := [\n" + strings.Join(ents, ",\n") + "\n]\n\nend NA.Gen.IosSkel\n")
 	if *out == "" {
 		fmt.Print(b.String())
 		return
